@@ -69,6 +69,10 @@ type k2Result struct {
 	// failing calls on which implementation and model chose different entries of a map (Go's iteration order is unspecified):
 	// resolved by re-running the model on the other iteration orders
 	MapOrderResolved, MapOrderTried int
+	// plan-level tie: the term read back from the emitted code of every generated method against the term of the model's plan
+	SymEqual, SymUnliftable int
+	SymDiffs                []map[string]any
+	SymUnliftableSamples    []string
 }
 
 // runK2 generates, compiles and executes the batches; for every call it returns the implementation's and the model's answer.
@@ -194,6 +198,7 @@ func runK2(e *env, name string, batches []*k2Batch) (*k2Result, error) {
 					continue
 				}
 				req.L[0] = sx.A("eval")
+				gvx.AddLifted(req, oc)
 				callsNode := sx.H("calls")
 				var mine []*k2Call
 				for _, m := range oc.Conv.Methods {
@@ -289,7 +294,27 @@ func runK2(e *env, name string, batches []*k2Batch) (*k2Result, error) {
 					}
 					continue
 				}
+				if sr := gvx.SymOf(a); sr != nil {
+					mu.Lock()
+					res.SymEqual += sr.Equal
+					res.SymUnliftable += len(sr.Unliftable)
+					for _, d := range sr.Diffs {
+						src := ""
+						if len(reqCalls[i]) > 0 {
+							src = reqCalls[i][0].Source
+						}
+						res.SymDiffs = append(res.SymDiffs, map[string]any{"batch": kb.Tag, "converter_source": src, "method": d.Method,
+							"model_term": d.Model, "emitted_code_term": d.Impl})
+					}
+					if len(sr.Unliftable) > 0 && len(res.SymUnliftableSamples) < 5 {
+						res.SymUnliftableSamples = append(res.SymUnliftableSamples, sr.Unliftable[0])
+					}
+					mu.Unlock()
+				}
 				for j, rnode := range a.Args() {
+					if rnode.Head() == "sym" {
+						continue
+					}
 					if rnode.Head() == "fragment" {
 						mu.Lock()
 						res.FragmentAsked++
@@ -329,6 +354,7 @@ func runK2(e *env, name string, batches []*k2Batch) (*k2Result, error) {
 	if res.MapOrderTried > 0 {
 		e.rep.Note("%s: %d failing calls where implementation and model first disagreed and an argument holds a map with several entries (Go's iteration order is unspecified): re-run on the other iteration orders in the model, %d agree under one of them, the others are reported", name, res.MapOrderTried, res.MapOrderResolved)
 	}
+	symReport(e, e.prop+" ("+name+")", res.SymEqual, res.SymUnliftable, res.SymDiffs, res.SymUnliftableSamples)
 	sort.SliceStable(res.Calls, func(i, j int) bool {
 		return res.Calls[i].Converter+res.Calls[i].Batch < res.Calls[j].Converter+res.Calls[j].Batch
 	})
